@@ -4,6 +4,7 @@ from __future__ import annotations
 from kit.engine import Cond
 from kit import oracle as O
 from kit.state import mk, raw, call, classes, is_stream, same
+from harness.common import CLS, _obj, _unchanged, _operand, _operand_unchanged, _tokbits
 
 ASSUMPTIONS = [
     "lengths are enumerated per condition (never symbolic); kilobit / word boundary behaviour inside the C extension is trusted",
@@ -17,23 +18,6 @@ D_ADD = ['bitstring.bits:Bits.__add__', 'bitstring.bits:Bits.__radd__', 'bitstri
          'bitstring.bits:Bits._create_from_bitstype', 'bitstring.bits:Bits._setauto_no_length_or_offset', 'bitstring.bits:Bits._copy',
          'bitstring.bitstream:ConstBitStream.__add__', 'bitstring.bitstore:BitStore.__add__', 'bitstring.bitstore:BitStore.__iadd__']
 D_MUL = ['bitstring.bits:Bits.__mul__', 'bitstring.bits:Bits.__rmul__', 'bitstring.bits:Bits._imul']
-
-CLS = ['Bits', 'BitArray', 'ConstBitStream', 'BitStream']
-
-
-def _obj(K, cname, n, name='x'):
-    cls = classes()[cname]
-    x = K.bits(name, n)
-    pos = K.int('pos_' + name, 0, n) if is_stream(cls) else None
-    return cls, x, pos, mk(K, cls, x, pos)
-
-
-def _unchanged(K, s, x, pos):
-    ok = same(raw(s), x)
-    if pos is not None:
-        ok = ok and s._pos == pos
-    return ok
-
 
 def h_basic(cname, n):
     def h(K):
@@ -95,36 +79,6 @@ def h_slice(cname, n, lim):
     return h
 
 
-def _operand(K, kind, m):
-    """returns (python operand, its bits as bitarray, class or None)"""
-    import bitstring
-    if kind in CLS:
-        cls = classes()[kind]
-        y = K.bits('y', m)
-        pos = K.int('pos_y', 0, m) if is_stream(cls) else None
-        return mk(K, cls, y, pos), y, cls
-    if kind == 'bytes':
-        assert m % 8 == 0
-        b = K.bytes('yb', m // 8)
-        bits = O.empty()
-        bits.frombytes(b)
-        return b, bits, None
-    if kind == 'bools':
-        y = K.bits('y', m)
-        lst = [bool(y[j]) if not K.symbolic else (y[j] == 1) for j in range(m)]
-        return lst, y, None
-    if kind.startswith('str:'):
-        tok = kind[4:]
-        return tok, O.from01(_tokbits(tok)), None
-    raise ValueError(kind)
-
-
-def _tokbits(tok):
-    # concrete catalogue of token strings with their bits, written out by hand
-    return {'0b1': '1', '0b011': '011', '0x5': '0101', '0o3': '011', '0xa5, 0b1': '101001011', '': '',
-            'uint:3=5': '101', 'int:4=-2': '1110', 'bool=True': '1', '0b1, 0b0, 0b1': '101'}[tok]
-
-
 def h_add(lname, rkind, n, m, reflected=False):
     """s + other (other of `rkind`); reflected: other + s with other a non-bitstring"""
     def h(K):
@@ -154,8 +108,7 @@ def h_add(lname, rkind, n, m, reflected=False):
         if is_stream(want) and t._pos != 0:
             return K.fail('sum pos not 0', got=t._pos)
         ok = same(raw(t), exp) and _unchanged(K, s, x, pos)
-        if ocls is not None:
-            ok = ok and same(raw(other), ybits)
+        ok = ok and _operand_unchanged(K, other, ybits, ocls)
         return K.check(ok, 'concatenation content / operands unchanged', got=raw(t), expected=exp)
     return h
 
